@@ -78,7 +78,7 @@ def make_type_resolver(built, spec, tag):
         return "?"
     return type_resolver
 
-async def build_engine(model, renv, cfg=None, sdl=None, engine_kwargs=None):
+async def build_engine(model, renv, cfg=None, sdl=None, engine_kwargs=None, directives=None):
     """model: schema model dict (gen.SchemaGen.model()), renv: resolver environment"""
     from tartiflette import create_engine, Resolver, Scalar, TypeResolver
     cfg = cfg or {}
@@ -97,6 +97,9 @@ async def build_engine(model, renv, cfg=None, sdl=None, engine_kwargs=None):
         Resolver(coord, schema_name=b.schema_name, **kw)(make_resolver(b, coord, spec))
     for tn, spec in (renv.get("typeResolvers") or {}).items():
         TypeResolver(tn, schema_name=b.schema_name)(make_type_resolver(b, spec, "type:" + tn))
+    for dname, impl in (directives or {}).items():
+        from tartiflette import Directive
+        Directive(dname, schema_name=b.schema_name)(impl)
     kwargs = dict(engine_kwargs or {})
     if "coerce_parent_concurrently" in cfg: kwargs["coerce_parent_concurrently"] = cfg["coerce_parent_concurrently"]
     if "coerce_list_concurrently" in cfg: kwargs["coerce_list_concurrently"] = cfg["coerce_list_concurrently"]
